@@ -13,6 +13,8 @@ for d in /verif/benign/bn*; do
     bn5-*) PROPS="C18 C17 C20";;
     bn6-*) PROPS="C04 C20 C02";;
     bn7-*) PROPS="C02 C18 C17";;
+    bn8-*) PROPS="C18 C17 C20";;
+    bn9-*) PROPS="C02 C04 C20";;
     *) PROPS="C02 C04 C17 C18 C20";;
   esac
   echo "- $n: $(VERIF_BUDGET_S=${VERIF_BUDGET_S:-30} VERIF_WORKERS=${VERIF_WORKERS:-6} /verif/tools/try_benign_iso.sh $d/patch.diff $PROPS 2>&1 | tr '\n' ' ')" >> $OUT
